@@ -953,6 +953,27 @@ end
 
 def Ty.parserGap (t : Ty) : Bool := t.gapAt false false false
 
+mutual
+/-- what is left of F18p with the `fix:` commits of branch fix-c18-5 (member / value types parsed as sequence types,
+occurrence indicators kept in the text of function(*) / attribute(..), is_sequence_type knowing attribute(N),
+namespace-node(), processing-instruction(N), element(N, T?)): a typed function test nested in a typed function
+test whose arguments mention `function(` (is_sequence_type validates that only in the last argument), and a kind
+test with a type argument inside a typed function test (is_sequence_type splits the argument list at every ', ').
+Over-approximates.  `Ty.gapAt` above is the trigger on the tree without those commits. -/
+def Ty.gap2At (infunc : Bool) : Ty → Bool
+  | .empty => false
+  | .leaf (.kindT _ _ _ _) _ => infunc     -- its text contains ', ': is_sequence_type cuts the argument list there
+  | .leaf _ _ => false
+  | .func a r => (infunc && a.anyMentionsFunc) || a.gap2All || r.gap2At true
+  | .map _ v _ => v.gap2At infunc
+  | .array m _ => m.gap2At infunc
+def Tys.gap2All : Tys → Bool
+  | .nil => false
+  | .cons a as => a.gap2At true || as.gap2All
+end
+
+def Ty.parserGap2 (t : Ty) : Bool := t.gap2At false
+
 /-- documents have at most one element child (XDM documents built from well-formed XML have exactly one) -/
 def docsWellFormed : List Item → Bool
   | [] => true
